@@ -1442,6 +1442,10 @@ static Node *create_lvar_init(Initializer *init, Type *ty, InitDesg *desg, Token
     for (int i = 0; i < ty->array_len; i++) {
       InitDesg desg2 = {desg, i};
       Node *rhs = create_lvar_init(init->children[i], ty->base, &desg2, tok);
+      // Elements without an initializer are zeroed by ND_MEMZERO; do not
+      // let them deepen the expression (`int buf[65536] = {0};`).
+      if (rhs->kind == ND_NULL_EXPR)
+        continue;
       node = new_binary(ND_COMMA, node, rhs, tok);
     }
     return node;
